@@ -1,4 +1,5 @@
 #!/bin/bash
+. "$(cd "$(dirname "$0")" && pwd)/env.sh"
 # Runs the vmon-miri workloads whose test name contains <test-filter> under Miri on the C-free
 # build of c2pa and prints ONE JSON line:
 #   {"engine":"miri","filter":..,"ran":bool,"passed":N,"failed":N,"reports":N,"first_report_sig":..,"seconds":N,"seeds":..,"log":..}
